@@ -80,7 +80,7 @@ def monitor(c, observed, label):
     """TLC evaluates the clauses on one recorded file.  Returns (lines, [VIOL records])."""
     nlines = sum(1 for _ in open(observed))
     r = c.tlc("Fanout", "FanoutTrace", workers=1, files={"observed.ndjson": observed}, timeout=1800,
-              label=label, count=False, heap="8g", tag="VIOL")
+              label=label, count=False, heap="4g", tag="VIOL")
     if r.timed_out or r.error is not None or r.rc != 0:
         raise vlib.Inconclusive("monitor run %s failed: %s\n%s" % (label, r.error or "timeout/rc", r.out[-1500:]))
     if r.distinct != nlines + 1:
@@ -88,10 +88,11 @@ def monitor(c, observed, label):
     return nlines, r.printed
 
 
-def run_level(c, binp, scenarios, label, parts, spec_events=None):
-    """driver + monitor, in `parts` parallel slices.  Returns (viol records, observed paths)."""
-    parts = max(1, min(parts, len(scenarios) // 200 + 1))
-    chunks = [scenarios[i::parts] for i in range(parts)]
+def run_level(c, binp, scenarios, label, parts, chunk=5000):
+    """driver + monitor over slices of at most `chunk` scenarios, `parts` slices at a time (a monitor run holds
+    its whole slice in memory).  Returns (VIOL records, observed paths, #events)."""
+    nch = max(1, (len(scenarios) + chunk - 1) // chunk)
+    chunks = [scenarios[i::nch] for i in range(nch)]
 
     def one(k):
         scf = os.path.join(c.work, "%s_sc%d.ndjson" % (label, k))
@@ -103,8 +104,8 @@ def run_level(c, binp, scenarios, label, parts, spec_events=None):
         nl, viol = monitor(c, obf, "%s_mon%d" % (label, k))
         return obf, nl, viol
 
-    with ThreadPoolExecutor(max_workers=parts) as ex:
-        res = list(ex.map(one, range(parts)))
+    with ThreadPoolExecutor(max_workers=max(1, min(parts, nch))) as ex:
+        res = list(ex.map(one, range(nch)))
     viols = [v for _, _, vs in res for v in vs]
     return viols, [r[0] for r in res], sum(r[1] for r in res)
 
@@ -203,7 +204,7 @@ def level1(c, binp, q):
             k += 1
             runs.add(b, SIGS[k % 4], ("fanout", "fanout", "router", "routesub")[k % 4], k % 3)
     c.log("level 1: %d runs (%d bounded-exhaustive, %d simulated)" % (len(runs.list), nexh, len(runs.list) - nexh))
-    viols, obs, nl = run_level(c, binp, runs.list, "l1", 4 if q else 10)
+    viols, obs, nl = run_level(c, binp, runs.list, "l1", 4 if q else 8)
     nbad = report(c, viols, runs, "fanout")
     c.traces_validated += len(runs.list)
     c.log("level 1: %d timelines (%d events) checked by the monitor, %d with a false clause" % (len(runs.list), nl, nbad))
@@ -339,7 +340,7 @@ def graph_level(c, gbin, q):
             k += 1
             gr.add(b, SIGS[k % 4], k % 3)
     c.log("graph level: %d runs (%d bounded-exhaustive, %d simulated)" % (len(gr.list), nexh, len(gr.list) - nexh))
-    viols, obs, nl = run_level(c, gbin, gr.list, "g", 4 if q else 10)
+    viols, obs, nl = run_level(c, gbin, gr.list, "g", 4 if q else 8)
     nbad = graph_report(c, viols, gr)
     c.traces_validated += len(gr.list)
     c.log("graph level: %d timelines (%d events) checked by the monitor, %d with a false clause" % (len(gr.list), nl, nbad))
